@@ -139,7 +139,10 @@ pub fn kw_text(w: &str, kwcase: u32) -> String {
     }
 }
 /// tokens -> text
-pub fn render(toks: &[Value], kwcase: u32, sep: u32, sp: u32) -> String {
+pub fn render(toks: &[Value], kwcase: u32, sep: u32, sp: u32) -> String { render_opts(toks, kwcase, sep, sp, None) }
+/// `idpad = Some(k)`: every identifier gets a tail of k ASCII letters followed by 2-, 3- and 4-byte characters, so that long
+/// names with a multi-byte character at every byte offset from k on appear wherever a name (or, after a fault, a keyword) stands
+pub fn render_opts(toks: &[Value], kwcase: u32, sep: u32, sp: u32, idpad: Option<usize>) -> String {
     let mut out = String::new();
     if sep == 4 { out.push_str("# en-tête: bibliothèque 単位 ✓\n"); }
     for (i, t) in toks.iter().enumerate() {
@@ -162,6 +165,7 @@ pub fn render(toks: &[Value], kwcase: u32, sep: u32, sp: u32) -> String {
         let txt = match k {
             "marked" => { let (t2, cm) = marked.clone().unwrap(); if cm { format!("{t2}\n") } else { t2 } }
             "kw" => kw_text(t["v"].as_str().unwrap(), kwcase),
+            "id" if idpad.is_some() => format!("{}{}é中😀é中", t["v"].as_str().unwrap(), "a".repeat(idpad.unwrap())),
             "kwu" | "id" | "str" | "raw" => t["v"].as_str().unwrap().to_string(),
             "num" => dec_text(&t["d"], (sp + if sp == 0 { 0 } else { (i % 2) as u32 * 0 }) % N_SP),
             "semi" => ";".to_string(),
